@@ -232,9 +232,10 @@ func (e *c13Env) send(id uint16) *c13Req {
 		}()
 	case "pc-sim":
 		a := netsim.Addr(fmt.Sprintf("client-%d", e.nextAddr.Add(1)))
-		e.pc.Inject(b, a)
+		pc := e.pc // (a scenario may give the Server another transport while this request is in flight)
+		pc.Inject(b, a)
 		go func() {
-			rb, ok := e.pc.Sent(a, c13Watch*3)
+			rb, ok := pc.Sent(a, c13Watch*3)
 			if !ok {
 				rq.reply <- false
 				return
@@ -745,6 +746,14 @@ func c13FailedStartScenario(w *core.W, variant int, seed uint64) {
 	defer sched.Use(nil)
 	e.kind = "failed-start"
 	var err error
+	// a free port, so that what is left behind by a start that failed can be looked for afterwards
+	probeAddr := "127.0.0.1:0"
+	if variant == 3 {
+		if l, lerr := net.Listen("tcp", "127.0.0.1:0"); lerr == nil {
+			probeAddr = l.Addr().String()
+			l.Close()
+		}
+	}
 	done := make(chan struct{})
 	go func() {
 		defer close(done)
@@ -757,8 +766,11 @@ func c13FailedStartScenario(w *core.W, variant int, seed uint64) {
 		case 2: // unparsable address
 			e.srv.Net, e.srv.Addr = "udp", "256.256.256.256:99999"
 			err = e.srv.ListenAndServe()
-		case 3: // TLS without certificates
-			e.srv.Net, e.srv.Addr, e.srv.TLSConfig = "tcp-tls", "127.0.0.1:0", &tls.Config{}
+		case 3: // TLS without certificates (nil config or an empty one), on an address that can be bound
+			e.srv.Net, e.srv.Addr, e.srv.TLSConfig = []string{"tcp-tls", "tcp4-tls"}[seed%2], probeAddr, &tls.Config{}
+			if seed%3 == 0 {
+				e.srv.TLSConfig = nil
+			}
 			err = e.srv.ListenAndServe()
 		}
 	}()
@@ -786,6 +798,15 @@ func c13FailedStartScenario(w *core.W, variant int, seed uint64) {
 	}
 	if st, _ := e.srv.VerifState(); st {
 		e.viol("started-flag-after-failed-start", "the server is marked started after a failed start")
+	}
+	if variant == 3 && !strings.HasSuffix(probeAddr, ":0") {
+		// nothing of a server that never started listens on the address: a connection attempt is refused
+		// (a listener that was bound and forgotten would accept it into its backlog)
+		w.Count("failed_start_address_probes", 1)
+		if c, derr := net.DialTimeout("tcp", probeAddr, 2*time.Second); derr == nil {
+			c.Close()
+			e.viol("socket-left-behind-by-failed-start", fmt.Sprintf("ListenAndServe(%s) failed with %q, yet %s still accepts connections", e.srv.Net, err, probeAddr))
+		}
 	}
 	// a retry with a usable transport must work
 	e.kind = "tcp-sim"
@@ -898,16 +919,44 @@ func c13RandomScenario(w *core.W, kind string, j int, seed uint64) {
 }
 
 // scenario: the server is started again while a Shutdown is still waiting for a held handler.
-func c13RestartDuringDrain(w *core.W, kind string, seed uint64) {
-	e := newC13Env(w, kind, "restart-during-drain", seed)
-	if !e.start() {
-		return
+func c13RestartDuringDrain(w *core.W, kind string, seed uint64) { c13RestartWhile(w, kind, false, seed) }
+
+// c13RestartWhile: a second start while a Shutdown of the same Server is still waiting - for a held
+// handler (beforeLoop=false), or for a serve goroutine that has marked the server started but has not
+// yet reached its loop (beforeLoop=true: held at the start.unlocked hook, before NotifyStartedFunc).
+func c13RestartWhile(w *core.W, kind string, beforeLoop bool, seed uint64) {
+	name := "restart-during-drain"
+	if beforeLoop {
+		name = "restart-before-serve-loop"
 	}
-	e.holdOn.Store(true)
-	r1 := e.send(60)
-	deadline := time.Now().Add(c13Watch)
-	for e.entered.Load() < 1 && time.Now().Before(deadline) {
-		time.Sleep(time.Millisecond)
+	e := newC13Env(w, kind, name, seed)
+	var r1 *c13Req
+	var g0 *sched.Gate
+	if beforeLoop {
+		g0 = e.ctl.Gate("start.unlocked", false)
+		e.ctl.Note("start.call", "")
+		go func() {
+			err := e.srv.ActivateAndServe()
+			e.ctl.Note("serve.return", fmt.Sprint(err))
+			e.serveErr <- err
+		}()
+		if !g0.WaitArrived(c13Watch) {
+			w.Inconclusive("c13-hook-not-reached:start.unlocked")
+			e.ctl.ReleaseAll()
+			e.finish(nil, false)
+			return
+		}
+		w.Count("restarts_before_serve_loop", 1)
+	} else {
+		if !e.start() {
+			return
+		}
+		e.holdOn.Store(true)
+		r1 = e.send(60)
+		deadline := time.Now().Add(c13Watch)
+		for e.entered.Load() < 1 && time.Now().Before(deadline) {
+			time.Sleep(time.Millisecond)
+		}
 	}
 	sg := e.ctl.Gate("shutdown.unlocked", false)
 	sd := e.shutdown("s1", nil)
@@ -941,8 +990,12 @@ func c13RestartDuringDrain(w *core.W, kind string, seed uint64) {
 		e.viol("restart-during-drain/second-start-blocks", "a start issued while Shutdown is draining neither started nor returned an error")
 	}
 	e.ctl.Note("second.start", second)
-	e.holdOn.Store(false)
-	close(e.hold)
+	if beforeLoop {
+		g0.Release() // the first serve goroutine goes on: it finds the server shut down and winds up
+	} else {
+		e.holdOn.Store(false)
+		close(e.hold)
+	}
 	err, ok := sd.wait(c13Watch)
 	if !ok {
 		e.viol("restart-during-drain/first-shutdown-does-not-return", fmt.Sprintf("the Shutdown that was draining never returned after the server was started again (second start: %s)", second))
@@ -986,7 +1039,9 @@ func c13RestartDuringDrain(w *core.W, kind string, seed uint64) {
 			e.viol("restart-during-drain/second-serve-does-not-return", "the second serve call did not return")
 		}
 	}
-	r1.close()
+	if r1 != nil {
+		r1.close()
+	}
 	if oldLn != nil {
 		oldLn.Close()
 	}
@@ -999,7 +1054,7 @@ func c13RestartDuringDrain(w *core.W, kind string, seed uint64) {
 	if e.pc != nil {
 		e.pc.Close()
 	}
-	deadline = time.Now().Add(3 * time.Second)
+	deadline := time.Now().Add(3 * time.Second)
 	for serverGoroutines() > 0 && time.Now().Before(deadline) {
 		time.Sleep(5 * time.Millisecond)
 	}
@@ -1325,6 +1380,7 @@ func c13Cases() []c13Case {
 		}
 		if kind == "tcp-sim" || kind == "pc-sim" {
 			cs = append(cs, c13Case{kind + " restart during drain", func(w *core.W, s uint64) { c13RestartDuringDrain(w, kind, s) }})
+			cs = append(cs, c13Case{kind + " restart before the serve loop", func(w *core.W, s uint64) { c13RestartWhile(w, kind, true, s) }})
 		}
 		if kind == "tcp-sim" || kind == "pc-sim" {
 			cs = append(cs, c13Case{kind + " pause", func(w *core.W, s uint64) { c13PauseScenario(w, kind, s) }})
